@@ -38,6 +38,8 @@ pub fn replay(args: &[String]) {
             Variant { name: "affine", p_total: 2, p_idx: 1, alpha: -2.5, beta: 7.0 },
             // location >> spread (integer-valued, so sums stay exact in f32): a one-pass variance cancels here
             Variant { name: "far", p_total: 2, p_idx: 1, alpha: 1.0, beta: 3000.0 },
+            // a million spreads away from the origin: the values themselves are still exact in f32, sums of more than 16 are not
+            Variant { name: "very-far", p_total: 2, p_idx: 0, alpha: 1.0, beta: 1048576.0 },
             Variant { name: "among-others", p_total: 8, p_idx: 5, alpha: 1.0, beta: 0.0 },
         ]
     } else {
@@ -47,6 +49,7 @@ pub fn replay(args: &[String]) {
             Variant { name: "affine", p_total: 2, p_idx: 0, alpha: -2.5, beta: 7.0 },
             Variant { name: "scaled", p_total: 4, p_idx: 3, alpha: 0.001, beta: 0.01 },
             Variant { name: "far", p_total: 2, p_idx: 1, alpha: 1.0, beta: 3000.0 },
+            Variant { name: "very-far", p_total: 2, p_idx: 0, alpha: 1.0, beta: 1048576.0 },
         ]
     };
     let mut evals = 0u64;
@@ -64,7 +67,7 @@ pub fn replay(args: &[String]) {
         };
         for v in &variants {
             // "far": the chain means themselves are only known to beta * 2^-24 in f32, which limits the between-chain term
-            let tol = if v.name == "plain" || v.name == "among-others" { rtol } else if v.name == "far" { 5e-3 } else { rtol * 8.0 };
+            let tol = if v.name == "plain" || v.name == "among-others" { rtol } else if v.name == "far" || v.name == "very-far" { 5e-3 } else { rtol * 8.0 };
             let arr = build(&a, v, 1);
             let r = catch(|| split_rhat_mean_ess(arr.view()));
             evals += 1;
@@ -101,7 +104,7 @@ pub fn replay(args: &[String]) {
                 // conditioning: ESS = m n / tau and tau = -1 + 2 sum(rho) can be close to zero (tau << 1: antithetic chains);
                 // an absolute error in the f32 autocorrelations is magnified by 1 / |tau| = |ESS| / (m n)
                 let kappa = (e / f("mn")).abs().max(1.0);
-                let etol = (if v.name == "far" { 3e-2 } else { tol * 4.0 }) * kappa;
+                let etol = (if v.name == "far" || v.name == "very-far" { 3e-2 } else { tol * 4.0 }) * kappa;
                 if !close(x, e) && (x - e).abs() > etol * e.abs() && ess_bad.len() < 20 {
                     ess_bad.push(json!({"case": brief(), "variant": v.name, "ess": x, "expected": e}));
                 }
